@@ -420,13 +420,34 @@ theorem broadcast_receivers_independent_of_payload (s : State) (answer : Handle 
 theorem state_independent_of_sink_answers (a b : Handle → SendResult) (h : List Op) :
     (run a State.empty h).1 = (run b State.empty h).1 := run_state_indep_of_answers a b State.empty h
 
+/-- **Observers.** Every read-only call (`get`, `get_by`, `key_for`, `aliases_for`, `len`, and a broadcast,
+whose sends run outside the registry) leaves the registry state exactly as it was: however many
+observers run, and however often, the history that determines every answer is the history of
+`insert`/`remove`/`alias` calls alone. -/
+theorem observers_leave_state (answer : Handle → SendResult) (s : State) (op : Op)
+    (h : ∀ id t, op ≠ .insert id t) (h' : ∀ id, op ≠ .remove id) (h'' : ∀ id k, op ≠ .alias id k) :
+    (step answer s op).1 = s := by
+  cases op with
+  | insert id t => exact absurd rfl (h id t)
+  | remove id => exact absurd rfl (h' id)
+  | alias id k => exact absurd rfl (h'' id k)
+  | get _ => rfl
+  | getBy _ => rfl
+  | keyFor _ => rfl
+  | aliasesFor _ => rfl
+  | len => rfl
+  | broadcast _ _ _ => rfl
+
+example : (step (fun _ => .ok) (after demo) (.getBy "a")).1 = after demo :=
+  observers_leave_state _ _ _ (fun _ _ e => by cases e) (fun _ e => by cases e) (fun _ _ e => by cases e)
+
 /-! ### source forms -/
 
 /-- The branches of `alias`, `remove`, `key_for`, `get_by` in the current source have the forms the model
 mirrors (re-extracted on every run; a recognised deviating form — `swap_remove`, the forward insert
 before the presence check, no same-owner early return, detaching from the wrong list, `insert(0, …)`,
-`last()`, a reverse-index entry left behind, a purge guard other than the ownership comparison — makes
-this theorem fail). Dropping the defensive ownership comparison in `remove` altogether is accepted: under
+`last()`, a reverse-index entry left behind, a purge guard other than the ownership comparison, a `lock()`
+that unwraps a poisoned mutex instead of recovering the guard — makes this theorem fail). Dropping the defensive ownership comparison in `remove` altogether is accepted: under
 the invariant it always succeeds (`Lemmas.remove_eqs`). -/
 theorem source_forms :
     Gen.Peers.aliasPresenceCheckFirst = true ∧ Gen.Peers.aliasSameOwnerEarlyReturn = true ∧
@@ -434,7 +455,8 @@ theorem source_forms :
     Gen.Peers.aliasPushForm = "push" ∧ Gen.Peers.removeDropsPeer = true ∧
     Gen.Peers.removeTakesIndexEntry = true ∧
     (Gen.Peers.removePurgeGuard = "forward_eq_id" ∨ Gen.Peers.removePurgeGuard = "none") ∧
-    Gen.Peers.keyForPick = "first" ∧ Gen.Peers.getByThroughPeers = true := by decide
+    Gen.Peers.keyForPick = "first" ∧ Gen.Peers.getByThroughPeers = true ∧
+    Gen.Peers.lockRecoversPoison = true := by decide
 
 /-! ### composition with the connection lifecycle (C15) -/
 
